@@ -179,24 +179,21 @@ def run(repo, rep):
         probs.append('only %d lookup paths' % len(fin))
     rep.check(not probs, 'C18.W2', 'statuses:Status.__init__:lookup-order', init.loc(),
               'specific, else general, else UNKNOWN (%d paths)' % len(fin), '; '.join(sorted(set(probs))))
-    # the five flags as the constructor leaves them (direct assignments, or a loop over a constant table with setattr)
+    # the five flags: as the constructor leaves them (direct assignments, or a loop over a constant table with setattr), or
+    # read-only properties of the same names
+    from ..status_model import flag_definitions
     flags = {}
-    for s, how in fin:
-        for t_, f_, v_ in s.heap:
-            if t_ == 'EXT:self' and f_.startswith('is_'):
-                try:
-                    ce = ast.parse(v_, mode='eval').body
-                except SyntaxError:
-                    ce = None
-                tt = s.field('EXT:self', 'status_type')
-                if isinstance(ce, ast.Compare) and len(ce.ops) == 1 and isinstance(ce.ops[0], ast.Eq):
-                    l_, r_ = ce.left, ce.comparators[0]
-                    lit = r_ if isinstance(r_, ast.Constant) else l_ if isinstance(l_, ast.Constant) else None
-                    other = l_ if lit is r_ else r_
-                    if lit is not None and norm(other) in ('self.status_type', tt):
-                        flags[f_] = lit.value
-                        continue
-                flags[f_] = v_
+    for f_, ce in flag_definitions(repo).items():
+        if isinstance(ce, ast.Compare) and len(ce.ops) == 1 and isinstance(ce.ops[0], ast.Eq):
+            l_, r_ = ce.left, ce.comparators[0]
+            lit = r_ if isinstance(r_, ast.Constant) else l_ if isinstance(l_, ast.Constant) else None
+            other = l_ if lit is r_ else r_
+            if lit is not None and norm(other) == 'self.status_type':
+                flags[f_] = lit.value
+                continue
+        flags[f_] = norm(ce)
+    # further predicates (``is_final``) must be boolean functions of the type, checked where they are used (C16.R2, C19.U1)
+    flags = {k_: v_ for k_, v_ in flags.items() if k_ in ('is_success', 'is_pending', 'is_failure', 'is_warning', 'is_cancel')}
     want_flags = {'is_success': 'Success', 'is_pending': 'Pending', 'is_failure': 'Failure', 'is_warning': 'Warning', 'is_cancel': 'Cancel'}
     rep.check(flags == want_flags, 'C18.W2', 'statuses:Status.__init__:flags', init.loc(),
               'five flags = equality of status_type with five pairwise distinct literals',
